@@ -22,6 +22,7 @@ func runC09(p *core.Prog, r *core.Report) {
 	c09Pairing(c)
 	c09Lockset(c)
 	c09ForkJoin(c)
+	c09GetterPurity(c, "R09.4")
 }
 
 func c09Pairing(c *ctx) {
